@@ -102,6 +102,8 @@ NoFx       == [kind |-> "", k |-> 0, a |-> "", u |-> 0, old |-> "", touched |-> 
 G0(cfg)    == [s |-> [k \in 1..cfg.n |-> Dead], fx |-> NoFx]
 
 LiveSet(g) == {k \in DOMAIN g.s : g.s[k].live}
+\* a session that is being ended (its termination is between "mark" and "remove")
+Ending(g)  == IF g.fx.kind \in {"term", "tick"} /\ g.fx.k # 0 THEN {g.fx.k} ELSE {}
 Sat(x, c)  == IF x > c THEN c ELSE x
 
 Base(op) == CASE op = "auth_begin" -> "auth" [] op = "term_begin" -> "term" [] op = "assign_begin" -> "assign"
@@ -236,6 +238,8 @@ EdgeClauses(cfg, g, e, obs) ==
   ELSE IF e.op = "cont" THEN ContClauses(cfg, g, e, obs)
   ELSE IF ~e.done THEN BeginClauses(cfg, g, e, obs)
   ELSE IF Base(e.op) = "tick" THEN TickClauses(cfg, g, e, obs)
+  ELSE IF e.s = 0 THEN   \* UpdateActivity for every session that is not being ended: nothing is reported
+         (IF ~e.ok THEN {"Successor"} ELSE {}) \cup (IF ~Quiet(e) THEN {"EventsOnce"} ELSE {}) \cup (IF ~NoStats(e) THEN {"StatsTrue"} ELSE {})
   ELSE OpClauses(cfg, g, g.s[e.s], Base(e.op), e.s, e.a, e)
 
 \* ---- next ghost ---------------------------------------------------------------------------
@@ -275,6 +279,7 @@ Step(cfg, g, e, obs) ==
   ELSE IF e.op = "cont" THEN ContStep(cfg, g, e, obs)
   ELSE IF ~e.done THEN BeginStep(cfg, g, e, obs)
   ELSE IF Base(e.op) = "tick" THEN [g EXCEPT !.s = [k \in DOMAIN g.s |-> IF k \in Ended(g, obs) THEN Dead ELSE g.s[k]]]
+  ELSE IF e.s = 0 THEN [g EXCEPT !.s = [k \in DOMAIN g.s |-> IF k \in Ending(g) THEN g.s[k] ELSE After(cfg, g.s[k], Base(e.op), e.a, e)]]
   ELSE LET k  == e.s
            g1 == [g EXCEPT !.s[k] = After(cfg, g.s[k], Base(e.op), e.a, e)]
        IN IF g.fx.kind = "auth" /\ g.fx.k = k THEN [g1 EXCEPT !.fx.touched = TRUE] ELSE g1
@@ -283,9 +288,6 @@ Step(cfg, g, e, obs) ==
 \* n = [ss (per slot [live, st, au, wg, a4, a6]), bymac, by4, by6 (per key: slot found, 0 not found,
 \*      -1 found without a live session), active, walled, nlist, fx]
 Proj(r) == [live |-> r.live, st |-> r.st, au |-> r.au, wg |-> r.wg, a4 |-> r.a4, a6 |-> r.a6]
-
-\* a session that is being ended (its termination is between "mark" and "remove")
-Ending(g) == IF g.fx.kind \in {"term", "tick"} /\ g.fx.k # 0 THEN {g.fx.k} ELSE {}
 
 \* answers an index may give for a key whose holders (per ghost) are H; pend: a session whose
 \* index update is still outstanding (AssignAddress in flight, allocator has answered)
